@@ -9,9 +9,11 @@ package main
 
 import (
 	"encoding/json"
+	"errors"
 	"flag"
 	"fmt"
 	"os"
+	"runtime"
 	"strings"
 
 	"verifharness/internal/errgen"
@@ -454,6 +456,12 @@ func (r *runner) run(c Case) string {
 		return fmt.Sprintf("%s false %s %s true true %s true %s true %s", head, nilObs, nilObs, nilObs, nilObs, nilObs)
 	}
 	s.Count("built:ok")
+	// other error values come into being between building e and using it: an unrelated embedding (and its text)
+	// must not disturb e
+	decoy := ge.EmbedObject(Obj{A: 99, B: "decoy"}, errors.New("another error"))
+	decoyText := decoy.Error()
+	defer runtime.KeepAlive(decoy)
+	_ = decoyText
 	var w, w2, t, u error
 	var same, idem, msgkept, tsame bool
 	func() {
